@@ -14,7 +14,7 @@ func init() {
 	register(&propDef{
 		ID:  "C04",
 		Run: runC04,
-		Explain: "Decided: (a) write discipline on scanner buffers: every instruction that writes bytes into a scanner's buffer (Read(dst), copy(dst, ..), append, element store) targets either a buffer that was freshly made on every path since the start of the enclosing loop iteration, or the tail s.buf[s.end:] beyond everything a token can cover; the offset/end bookkeeping is only rewound together with such a fresh buffer; tokens are only ever sub-slices of the buffer (no in-place shift as bufio.Scanner does); (b) error discipline: the error callback is invoked only under err != nil && err != io.EOF, eof is set on every path that saw an error, the byte count of a Read is added before the error is acted upon (bytes read together with the error are kept), and no Read is reachable once eof is known; (c) CR handling wiring: every newline-terminated token goes through dropCR and the EOF tail does not; (d) every slice/index expression of pkg/readahead is discharged (compiler, guard facts, reviewed reasons). " +
+		Explain: "Decided: (a) write discipline on scanner buffers: every instruction that writes bytes into a scanner's buffer (Read(dst), copy(dst, ..), append, element store) targets either a buffer that was freshly made on every path since the start of the enclosing loop iteration, or the tail s.buf[s.end:] beyond everything a token can cover; the offset/end bookkeeping is only rewound together with such a fresh buffer; tokens are only ever sub-slices of the buffer (no in-place shift as bufio.Scanner does); (b) error discipline: the error callback is invoked only under err != nil && err != io.EOF, eof is set on every path that saw an error, the byte count of a Read is added before the error is acted upon (bytes read together with the error are kept), and no Read is reachable once eof is known; (c) CR handling wiring: every newline-terminated token goes through dropCR and the EOF tail does not; (d) every slice/index expression of pkg/readahead is discharged (compiler, guard facts, reviewed reasons). dropCR returns its argument, or the argument minus exactly its last byte under the test that this byte is a carriage return. " +
 			"NOT decided: that the yielded segments are exactly the newline-delimited segments for every chunking and buffer size (offset arithmetic that stays inside the buffer is invisible to these rules).",
 		Assume: []string{"io.Reader implementations and the error callback do not re-enter the scanner"},
 	})
